@@ -80,6 +80,10 @@ def gen_bytes(w, r):
     n = m.nodes[bi]
     size, cur = n.a["size"], len(n.a["contents"])
     meth = r.choice(["init_size", "init_size", "assign", "edit", "edit_slice"])
+    if w.cfg.get("allow_overlong") and size <= 16 and r.random() < 0.25:
+        if r.random() < 0.5:
+            return {"op": "bytes", "bi": bi, "method": "init_size", "args": [size + r.randrange(1, 4)]}
+        return {"op": "bytes", "bi": bi, "method": "assign", "args": [rbytes(r, size + r.randrange(1, 4))], "as": "bytearray"}
     if meth == "init_size":
         hi = min(size, 24)
         v = r.choice([0, cur, min(size, cur + 1), max(0, cur - 1), r.randrange(0, hi + 1), hi])
